@@ -61,11 +61,11 @@ def run(tier, selftest):
     summ = run_cases(binp, cases, rep, "mc")
     d = os.path.join(vlib.scratch(), "decode_files")
     nf = 500000 if thorough else 10000
-    rc, lines, err = vlib.run_harness(binp, ["decode-fuzz", "--seed", vlib.seed(), "--n", nf, "--dir", d], timeout=1800)
-    if rc != 0 or not lines:
-        vlib.tool_error(f"decode-fuzz failed: {err[-500:]}")
-    for m in lines[:-1]:
+    lines, fhangs = vlib.run_fuzz_watched(binp, vlib.seed(), nf, d)
+    for m in lines:
         rep.violation("decode:panic:fuzz", m["mismatch"], {"kind": "case", "case": m["case"]})
+    for i, data in fhangs:
+        rep.violation("decode:hang:fuzz", f"load() of random file {i} did not return (no progress for 20 s)", {"kind": "case", "case": {"fam": "fuzz", "i": i, "bytes": data}})
     binding = None
     if selftest or thorough:
         c = json.loads(json.dumps(next(c for c in cases if c["fam"] == "bytes" and len(c["decoded"]) >= 1)))
